@@ -94,9 +94,9 @@ def check(tier, seed):
             continue
         _name, worlds = H.worlds_for(schema, query, variables, with_boom=True, limit=None)
         if tier != "thorough":
-            bad = [x for x in worlds if x[0].startswith("badleaf@")]
+            bad = [x for x in worlds if x[0].startswith(("badleaf@", "boom-index@", "boom-key@", "shared-error@"))]
             worlds = worlds[:1] + rnd.sample(worlds[1:], min(len(worlds) - 1, 6))
-            worlds += [x for x in bad[:1] + bad[-1:] if x not in worlds]      # fixed members: unserialisable leaf values (first and last such path)
+            worlds += [x for x in bad if x not in worlds and (not x[0].startswith("badleaf@") or x in (bad[0], bad[-1]))]      # fixed members
         for wname, world in worlds:
             items.append((query, variables, wname, world, dset))
     cap = 720 if tier == "thorough" else 48
